@@ -337,8 +337,8 @@ def run_cfg(chk, facts, cfg):
         try:
             sx, paths = summ(unew, ['sa', 'sb'], None)
             rets = [p.ret for p in paths if p.is_ret()]
-            if len(rets) == 1 and rets[0][0] == 'adt' and set(rets[0][3]) == {T.sym('sa'), T.sym('sb')}:
-                roles = (rets[0][3].index(T.sym('sa')), rets[0][3].index(T.sym('sb')))
+            if len(rets) == 1 and rets[0][0] == 'adt' and set(rets[0][3]) - {T.AUX} == {T.sym('sa'), T.sym('sb')}:
+                roles = (rets[0][3].index(T.sym('sa')), rets[0][3].index(T.sym('sb')), len(rets[0][3]))
         except Unsupported:
             pass
         chk.ob('%s:Unpaired::new%s' % (PID, sfx), 'layout', 'Unpaired::new(stats_a, stats_b) stores the two states', roles is not None, '', facts.loc(unew['id']))
@@ -347,7 +347,7 @@ def run_cfg(chk, facts, cfg):
         return
 
     def ustate(a, b):
-        f = [None, None]
+        f = [T.AUX] * roles[2]       # auxiliary fields (sa/layout.py), if any
         f[roles[0]] = a
         f[roles[1]] = b
         return ('adt', up, 0, tuple(f))
